@@ -381,6 +381,10 @@ def fam_c11(tier, seed):
     b2s = list(sk.bs_family(2, 3, [0, 30], tickers=("A", "B"), need_sell=False))
     for l in sk.with_events(b2s, ("C", "M"), [0, 1, 30], max_events=1, tickers=("B",)):
         items.append((l, BASES[0]))
+    # several capital events landing on two lots of different cost, one of them identified by the 30-day / same-day rule
+    for evs in ([["C", "A", 31], ["C", "A", 61]], [["C", "A", 31], ["C", "A", 32]], [["M", "A", 31], ["C", "A", 61]], [["C", "A", 31], ["M", "A", 32], ["C", "A", 61]]):
+        items.append(([["B", "A", 0], ["S", "A", 1], ["B", "A", 30]] + evs, BASES[0]))
+        items.append(([["B", "A", 0], ["B", "A", 30], ["S", "A", 30]] + evs, BASES[0]))
     items = _dedup(items + bnb_split_event_family())
     sks = _number("e", items, variant="events")
     canc = [it for it in items if any(x[0] == "C" for x in it[0]) and not any(x[0] == "M" for x in it[0])]
@@ -883,6 +887,20 @@ def fam_c19(tier, seed):
     for aw in extra:
         sks.append(conv(i, "x", [row(R)], base=b, awards=aw)); i += 1
         sks.append(conv(i, "x", [row(R, sym="a")], base=b, awards=aw)); i += 1
+    # entries of the two price formats mixed in one awards file (vest-specific before / after fallback-only), also across symbols
+    for (g1, g2) in ((1, 9), (9, 1), (0, 3), (3, 0), (2, 8), (7, 1), (-1, 2)):
+        for (k1, k2) in (("vest", "fmv"), ("fmv", "vest")):
+            a1 = ["A", -g1, k1] + ([-g1] if k1 == "vest" else [])
+            a2 = ["A", -g2, k2] + ([-g2] if k2 == "vest" else [])
+            sks.append(conv(i, "k", [row(R)], base=b, awards=[a1, a2])); i += 1
+    for aw in ([["B", -1, "vest", -1], ["A", -1, "fmv"]], [["B", -5, "vest", -5], ["A", 0, "fmv"]], [["A", -1, "fmv"], ["B", -1, "vest", -1]],
+               [["B", 0, "vest", 0], ["A", -2, "fmv"], ["A", -1, "vest", -1]]):
+        sks.append(conv(i, "k", [row(R)], base=b, awards=aw)); i += 1
+    # deposits of two symbols on one day (each must be priced from its own entries, or refused by name)
+    for aw in ([["A", -1, "fmv"], ["B", -3, "fmv"]], [["B", -3, "vest", -3], ["A", -1, "fmv"]], [["A", -1, "fmv"]], [["B", 0, "fmv"]],
+               [["A", 0, "vest", 0], ["B", -7, "fmv"]], [["A", -8, "fmv"], ["B", -2, "fmv"]]):
+        sks.append(conv(i, "z", [row(R), row(R, sym="B")], base=b, awards=aw)); i += 1
+        sks.append(conv(i, "z", [row(R, sym="B"), row(R)], base=b, awards=aw)); i += 1
     # two deposits sharing one entry; deposit plus sale
     sks.append(conv(i, "y", [row(R), row(R, day=2)], base=b, awards=[["A", -1, "fmv"]])); i += 1
     sks.append(conv(i, "y", [row(R), row("Sell", day=1)], base=b, awards=[["A", -3, "vest", -3]])); i += 1
@@ -920,6 +938,8 @@ def fam_c16(tier, seed):
         # same-day sales listed in non-alphabetical ticker order
         [["B", "B", 0], ["B", "A", 0], ["S", "B", 1], ["S", "A", 1]],
     ]
+    # lines in date order whose same-day tickers are listed non-alphabetically, trades and asset events
+    sym_shapes.append([["B", "B", 0], ["B", "A", 0], ["D", "B", 1], ["C", "B", 1], ["D", "A", 1], ["S", "B", 30], ["S", "A", 30]])
     for sh in sym_shapes:
         # prices and fees symbolic (so every gain sign is explored), quantities concrete (no matcher forks)
         sks.append(mk(i, "s", sh, base=b, wit=60, mode="PF")); i += 1
